@@ -52,11 +52,14 @@ type C13Case struct {
 	BrokenB []string
 	ConvB   []string
 	Fatal   bool // Dirty additionally holds a conflict that must make the run fail (C19 kind)
+	// Multi: broken files of Dirty that hold several unreadable documents (file name -> number of documents)
+	Multi map[string]int `json:",omitempty"`
 	// CLI: the stop-on-error clause is also observed at the built binary (`list --fail` next to other options)
 	CLI bool `json:",omitempty"`
 }
 
-func c13Inject(t *rapid.T, l string, docs []string, fatal bool, wls []Workload) (files []C12File, broken, conv []string) {
+func c13Inject(t *rapid.T, l string, docs []string, fatal bool, wls []Workload) (files []C12File, broken, conv []string, multi map[string]int) {
+	multi = map[string]int{}
 	docs = append([]string{}, docs...)
 	ndoc := rapid.IntRange(1, 4).Draw(t, l+"ninj")
 	for i := 0; i < ndoc; i++ {
@@ -110,7 +113,26 @@ func c13Inject(t *rapid.T, l string, docs []string, fatal bool, wls []Workload) 
 	for i := 0; i < nb; i++ {
 		name := fmt.Sprintf("broken%d%s", i, rapid.SampledFrom([]string{".yaml", ".yml", ".json"}).Draw(t, fmt.Sprintf("%sext%d", l, i)))
 		sub := rapid.SampledFrom([]string{"", "sub", "sub/deeper"}).Draw(t, fmt.Sprintf("%ssub%d", l, i))
-		files = append(files, C12File{Path: filepath.Join(sub, name), Content: rapid.SampledFrom(brokenFileBodies).Draw(t, fmt.Sprintf("%sbf%d", l, i))})
+		body := rapid.SampledFrom(brokenFileBodies).Draw(t, fmt.Sprintf("%sbf%d", l, i))
+		if rapid.IntRange(0, 2).Draw(t, fmt.Sprintf("%smulti%d", l, i)) == 0 {
+			// one file, several unreadable documents (documents without a kind): each of them is a malformed document
+			k := rapid.IntRange(2, 3).Draw(t, fmt.Sprintf("%smultik%d", l, i))
+			var parts []string
+			for j := 0; j < k; j++ {
+				if strings.HasSuffix(name, ".json") {
+					parts = append(parts, fmt.Sprintf("{\"note\":\"n%d\"}\n", j))
+				} else {
+					parts = append(parts, fmt.Sprintf("note: n%d\n", j))
+				}
+			}
+			if strings.HasSuffix(name, ".json") {
+				body = strings.Join(parts, "")
+			} else {
+				body = strings.Join(parts, "---\n")
+			}
+			multi[name] = k
+		}
+		files = append(files, C12File{Path: filepath.Join(sub, name), Content: body})
 		broken = append(broken, name)
 	}
 	// non-manifest files
@@ -135,9 +157,9 @@ func genC13(t *rapid.T) *C13Case {
 	c := &C13Case{Clean: w.YAML(), Fatal: rapid.IntRange(0, 5).Draw(t, "fatal") == 0, CLI: rapid.IntRange(0, 3).Draw(t, "cli") == 0}
 	wb := editWorld(t, w)
 	c.CleanB = wb.YAML()
-	c.Dirty, c.Broken, c.Conv = c13Inject(t, "a", worldDocStrings(w), c.Fatal, w.Workloads)
+	c.Dirty, c.Broken, c.Conv, c.Multi = c13Inject(t, "a", worldDocStrings(w), c.Fatal, w.Workloads)
 	if rapid.Bool().Draw(t, "injectB") {
-		c.DirtyB, c.BrokenB, c.ConvB = c13Inject(t, "b", worldDocStrings(wb), false, wb.Workloads)
+		c.DirtyB, c.BrokenB, c.ConvB, _ = c13Inject(t, "b", worldDocStrings(wb), false, wb.Workloads)
 	} else {
 		c.DirtyB = []C12File{{Path: "all.yaml", Content: c.CleanB}}
 	}
@@ -247,6 +269,26 @@ func checkC13(c *C13Case, st *VStats) *VFailure {
 			}
 			if !ok {
 				return vfail("%s: no severe entry in Errors() names the malformed item %q (entries: %+v; scanner errors: %v)", what, n, got.Errs, got.ScanErrs)
+			}
+		}
+		// a file with k unreadable documents: each document is reported (k entries name the file)
+		for _, n := range sortedKeysOf(c.Multi) {
+			k, cnt := c.Multi[n], 0
+			for _, e := range got.Errs {
+				if e.Severe && (strings.Contains(e.Msg, n) || strings.Contains(e.Loc, n)) {
+					cnt++
+				}
+			}
+			if via {
+				for _, se := range got.ScanErrs {
+					if strings.Contains(se, n) {
+						cnt++
+					}
+				}
+			}
+			st.Class("a file with several unreadable documents")
+			if cnt < k {
+				return vfail("%s: the file %q holds %d unreadable documents but only %d severe entries name it (entries: %+v; scanner errors: %v)", what, n, k, cnt, got.Errs, got.ScanErrs)
 			}
 		}
 		// stop on first error: a severe error yields no connections
